@@ -35,7 +35,8 @@ for pid, name, f, old, new in MUTS:
     d = "/tmp/store3/mut/repo"
     shutil.rmtree(d, ignore_errors=True)
     subprocess.run(["rsync", "-a", "--exclude", ".git", "--exclude", "*.o", "--exclude", "*.lo", "--exclude", ".libs", "/repo/", d + "/"], check=True)
-    if name.startswith("addrow-fallback"):      # this mutation is one of the repaired loop: apply the repair first
+    if name.startswith("addrow-fallback") and "rowcnt - i, rowind + i" not in open(os.path.join(d, f)).read():
+        # this mutation is one of the repaired loop: apply the repair first (it is in /repo since ac51791)
         subprocess.run(["patch", "-p1", "-s", "-d", d, "-i", os.path.join(W, "notes/repo_patches/matrix_addrow_repeated_column.diff")], check=False)
     p = os.path.join(d, f)
     s = open(p).read()
